@@ -333,10 +333,158 @@ def finish(pid, cfg, tier, seed, t0, mcs, traces, gstats, val, viol, hits, drift
 
 
 # ---------------------------------------------------------------------------------------
+# C17: prefix variations (rows, not histories)
+# ---------------------------------------------------------------------------------------
+def c17_lrus(rng, n):
+    """Grammar instances: scheme, optional port, 0-3 contiguous hosts not ending in two www,
+    then 0-2 arbitrary stems - concretized with adversarial texts, long and raw-byte stems."""
+    schemes = [b"s:http|", b"s:https|", b"s:ftp|", b"s:HTTP|", b"s:xs:http|", b"s:httpx|"]
+    ports = [b"", b"", b"t:80|", b"t:8080|"]
+    hosts = [b"h:com|", b"h:ex|", b"h:www|", b"h:localhost|", b"h:127.0.0.1|", b"h:a|", b"h:wwww|",
+             b"h:ww|", b"h:WWW|", b"h:h:www|", b"h:" + b"x" * 90 + b"|"]
+    rest = [b"p:a|", b"p:s:http|", b"p:s:https|", b"p:h:www|", b"q:h:www|", b"p:h:|", b"f:s:http|",
+            b"p:xs:http|", b"p:" + b"y" * 80 + b"|", b"p:\x00\xff|", b"q:s:https|h"[:-1] + b"|", b"p:www|"]
+    out = []
+    # exhaustive small core: every scheme/port/host-list over 3 hosts, with and without one rest stem
+    core_h = [b"h:com|", b"h:ex|", b"h:www|"]
+    lists = [[]]
+    for k in (1, 2, 3):
+        lists += [[core_h[i] for i in idx] for idx in __import__("itertools").product(range(3), repeat=k)]
+    for s in schemes[:3]:
+        for pt in (b"", b"t:80|"):
+            for hl in lists:
+                if len(hl) >= 2 and hl[-1] == b"h:www|" and hl[-2] == b"h:www|":
+                    continue
+                for r in (b"", b"p:s:http|", b"q:h:www|"):
+                    out.append(s + pt + b"".join(hl) + r)
+    while len(out) < n:
+        s = rng.choice(schemes)
+        pt = rng.choice(ports)
+        hl = [rng.choice(hosts) for _ in range(rng.choice([0, 1, 2, 2, 3, 3]))]
+        if len(hl) >= 2 and hl[-1] == b"h:www|" and hl[-2] == b"h:www|":
+            continue
+        rs = [rng.choice(rest) for _ in range(rng.choice([0, 0, 1, 2]))]
+        out.append(s + pt + b"".join(hl) + b"".join(rs))
+    seen, uniq = set(), []
+    for l in out:
+        if l not in seen:
+            seen.add(l)
+            uniq.append(l)
+    return uniq[:max(n, 0)] if n else uniq
+
+
+def c17_rows(lrus):
+    import traph.helpers as th
+    from hooks import guarded
+    rows = []
+    skipped = 0
+    for i, l in enumerate(lrus):
+        vs, e = guarded(lambda: th.lru_variations(l))
+        ix = impl.Index("memory", {"k": "never"}, [])
+        try:
+            ev, e2 = guarded(lambda: ix.t.expand_prefix(l))
+        finally:
+            ix.destroy()
+        row = {"id": i, "l": l, "vars": list(vs or []), "exc": e or e2 or ("" if ev == vs else "expand_prefix differs"),
+               "members": [], "created": []}
+        for v in (vs or []):
+            mv, me = guarded(lambda: th.lru_variations(v))
+            row["members"].append({"m": v, "vars": list(mv or []), "exc": me})
+        rule = {"k": "subdomain"}
+        if vs and len(vs) <= 4:
+            for v in vs:
+                page = v + b"p:zz|"
+                if impl.real_match_len(rule, page) is None:
+                    skipped += 1
+                    continue
+                ix = impl.Index("memory", rule, [])
+                try:
+                    res = impl.apply_op(ix, {"op": "AddPage", "l": page, "cr": False})
+                    pre = [p for c in res["created"] for p in c["prefixes"]]
+                    row["created"].append({"m": v, "prefixes": pre, "exc": res["exc"]})
+                finally:
+                    ix.destroy()
+        rows.append(row)
+    return rows, skipped
+
+
+def check_c17(pid, cfg, tier, seed, work, t0):
+    import random
+    ti = 0 if tier == "quick" else 1
+    mcs = [run_mc("var", work)]
+    if not mcs[0]["ok"]:
+        raise Machinery("TLC reports an error in MC_var:\n" + mcs[0].get("tail", ""))
+    rng = random.Random(seed * 7 + 3)
+    lrus = c17_lrus(rng, (900, 8000)[ti])
+    rows, skipped = c17_rows(lrus)
+    viol = []
+    states = [0, 0]
+    wall = 0.0
+    for c in range(0, len(rows), 1500):
+        part = rows[c:c + 1500]
+        v = runner.validate_rows(part, os.path.join(work, "rows_%d" % c))
+        states[0] += v["states"][0]
+        states[1] += v["states"][1]
+        wall += v["wall"]
+        for row in part:
+            bad = [cl for _, cl in v["verdicts"][row["id"]] if cl.startswith("C17.")]
+            if bad:
+                viol.append((row, bad))
+    known = load_known()
+    nv = 0
+    for row, bad in viol[:25]:
+        body = {"property": pid, "kind": "variations", "lru": b2s(row["l"]), "reported": b2s(row["vars"]),
+                "exc": row["exc"], "failing": bad}
+        h = hashlib.sha1(json.dumps(body, sort_keys=True).encode()).hexdigest()[:12]
+        os.makedirs(os.path.join(VERIF, "replays"), exist_ok=True)
+        path = os.path.join(VERIF, "replays", "%s-%s.json" % (pid, h))
+        json.dump(body, open(path, "w"), indent=1, sort_keys=True)
+        print("VIOLATION property=%s replay=%s clause=%s lru=%r" % (pid, path, bad[0], row["l"][:80]))
+        nv += 1
+    if len(viol) > 25:
+        print("... %d more violating rows not listed" % (len(viol) - 25))
+    nontriv = sum(1 for r in rows if len(r["vars"]) >= 2)
+    cov = {"states": mcs[0]["distinct"], "transitions": mcs[0]["states"], "model_configs": mcs,
+           "traces_validated_against_impl": len(rows), "trace_validation_tlc_states": states[1],
+           "evaluations": len(rows), "distinct_nontrivial": nontriv,
+           "rule": "rows = distinct well-formed LRUs of the C17 grammar (exhaustive over 3 schemes x port x all host lists "
+                   "of length <= 3 over {com, ex, www} x 3 tails, plus random concretizations with adversarial / long / "
+                   "raw-byte stems); non-trivial = the LRU has at least one variation besides itself",
+           "samples": [{"lru": r["l"].decode("latin-1"), "reported": [v.decode("latin-1") for v in r["vars"]]}
+                       for r in rows[40:43]],
+           "created_class_checks": sum(1 for r in rows if len(r["created"]) >= 2),
+           "family_skipped": skipped, "exhaustive": False}
+    write_evidence(pid, tier, seed, cov, time.time() - t0, len(viol),
+                   COMMON_ASSUMPTIONS + ["C17.sameWe drives add_page under the 'subdomain' default rule on a fresh "
+                                         "in-memory index for every member of the class"])
+    print("%s %s: model var %d states (grammar exhaustively); %d rows validated by TLC in %.1fs; violations=%d (%.1fs)"
+          % (pid, tier, mcs[0]["distinct"], len(rows), wall, len(viol), time.time() - t0))
+    return 1 if viol else 0
+
+
+def replay_c17(body, work):
+    l = s2b(body["lru"])
+    rows, _ = c17_rows([l])
+    v = runner.validate_rows(rows, os.path.join(work, "rows"))
+    bad = [cl for _, cl in v["verdicts"][0] if cl.startswith("C17.")]
+    for cl in bad:
+        print("VIOLATION property=C17 replay=- clause=%s lru=%r" % (cl, l))
+    if not bad:
+        print("replay: no violation of C17 on the current tree for %r" % l)
+    return 1 if bad else 0
+
+
+reg("C17", custom=check_c17, mc=[("var", None, None)], title="Prefix variations",
+    technique="TLA+ token-level definition of variations model-checked over the whole grammar (MC_var) + TLC "
+              "validation of rows recorded from lru_variations / expand_prefix / automatic creation")
+
+# ---------------------------------------------------------------------------------------
 # Replay
 # ---------------------------------------------------------------------------------------
 def replay(pid, path, work):
     body = json.load(open(path))
+    if body.get("kind") == "variations":
+        return replay_c17(body, work)
     cfg = P[body["property"]]
     hook = getattr(hooks, "hook_" + cfg["hook"]) if cfg["hook"] else None
     rules = [tuple(x) for x in s2b(body["rules"])]
